@@ -55,7 +55,8 @@ def positions_ci(obj):
         for f in ("id", "name", "type"):
             yield "variant[%s].%s" % (uid, f), "variant." + f, _set(tgt, f), None
         yield "variant[%s].arches" % uid, "variant.arches", (lambda o, v, t=tgt: setattr(t(o), "arches", set(v))), None
-        yield "variant[%s].uid" % uid, None, _set(tgt, "uid"), ["Other-%s" % uid.split("-")[-1]]
+        yield "variant[%s].uid" % uid, None, _set(tgt, "uid"), ["Other-%s" % uid.split("-")[-1]] + (
+            ["%s-Extra-%s" % tuple(uid.rsplit("-", 1)), "%s-x%s" % tuple(uid.rsplit("-", 1))] if is_child else [])
 
         def rename(o, val, u=uid):
             """id, UID and container key renamed together: only the id rule itself can refuse the object"""
@@ -128,7 +129,10 @@ def positions_ti(obj):
         for kind in ("packages", "identity"):
             yield "variant[%s].paths.%s" % (uid, kind), "ti.variant.path", _set(lambda o, t=tgt: t(o).paths, kind), None
         if is_child:
-            yield "variant[%s].uid" % uid, None, _set(tgt, "uid"), ["Other-%s" % uid.split("-")[-1]]
+            # wrong parent part; right beginning and right end with something in between; right end only; right beginning only
+            head, tail = uid.rsplit("-", 1)
+            yield "variant[%s].uid" % uid, None, _set(tgt, "uid"), ["Other-%s" % tail, "%s-Extra-%s" % (head, tail), "%sx-%s" % (head, tail),
+                                                                    "%s-x%s" % (head, tail), "%s-%s-%s" % (head, tail, tail)]
     for platform in sorted(obj.images.images):
         for name in sorted(obj.images.images[platform]):
             yield ("images[%s][%s]" % (platform, name), "ti.image.path",
